@@ -11,10 +11,11 @@ from .. import tlaval, wb
 from ..core import Machinery
 
 
-def cfg(initr=3, initc=3, maxr=4, maxc=4, depth=4, ops=None, view=True, props=True, rectsets="MCRectSets"):
+def cfg(initr=3, initc=3, maxr=4, maxc=4, depth=4, ops=None, view=True, props=True, rectsets="MCRectSets", defs=("e", "c")):
     ops = ops or ["merge", "write", "addrow", "addcol", "delrow", "delcol", "save", "reopen"]
     lines = ["CONSTANTS InitR = %d" % initr, "InitC = %d" % initc, "MaxR = %d" % maxr, "MaxC = %d" % maxc, 'Vals = {"c"}',
              "D = %d" % depth, "OpsOn = {%s}" % ", ".join('"%s"' % o for o in ops), "RectSets <- %s" % rectsets,
+             "Defs = {%s}" % ", ".join('"%s"' % d for d in defs),
              "SPECIFICATION Spec", "CONSTRAINT Depth", "CHECK_DEADLOCK FALSE"]
     if view:
         lines.append("VIEW NoHist")
@@ -32,6 +33,7 @@ Vals = {"c"}
 D = 1
 OpsOn = {}
 RectSets <- MCRectSets
+Defs = {"e"}
 SPECIFICATION TSpec
 INVARIANT Done
 CHECK_DEADLOCK FALSE
@@ -206,11 +208,23 @@ def run(ctx):
                        "after an edit that follows a merge Level A only demands a self-consistent picture that is the same after reload; "
                        "where the rectangles end up is Level B (DRIFT)"]
     ctx.stage("model-check")
-    ctx.tlc("Merges", cfg(depth=4 if q else 5), what="MC_Merges[3x3..4x4, all rectangles and disjoint pairs]", timeout=3000)
+    if q:
+        ctx.tlc("Merges", cfg(depth=4, defs=("e",)), what="MC_Merges[3x3..4x4, all rectangles and disjoint pairs]", timeout=3000)
+        ctx.tlc("Merges", cfg(depth=4, rectsets="GenRectSets"), what="MC_Merges[defaults, reduced rectangle family]", timeout=3000)
+    else:
+        ctx.tlc("Merges", cfg(depth=4), what="MC_Merges[3x3..4x4, all rectangles and disjoint pairs, defaults]", timeout=6000)
+        ctx.tlc("Merges", cfg(depth=5, defs=("e",)), what="MC_Merges[depth 5, no defaults]", timeout=9000)
     ctx.stage("generate")
-    gen = cfg(depth=4 if q else 5, view=False, props=False, rectsets="GenRectSets" if q else "MCRectSets",
+    # quick: four levels with defaults on a reduced rectangle family; thorough: the same on the full family, plus five levels without defaults
+    # on the reduced one (the dump of five levels with defaults and all rectangles does not fit)
+    gen = cfg(depth=4, view=False, props=False, rectsets="GenRectSets" if q else "MCRectSets",
               ops=["merge", "write", "addrow", "delcol", "save", "reopen"] if q else None)
     hist, nstates = histories(ctx, gen, "Gen_Merges")
+    if not q:
+        h5, n5 = histories(ctx, cfg(depth=5, view=False, props=False, rectsets="GenRectSets", defs=("e",),
+                                    ops=["merge", "write", "addrow", "addcol", "delrow", "delcol", "save", "reopen"]), "Gen_Merges[depth 5]")
+        hist += h5
+        nstates += n5
     rng = random.Random(ctx.seed + 12)
     hist = [h for h in hist if any(o["op"] == "merge" for o in h)]
     total = len(hist)
